@@ -46,7 +46,14 @@ def main(argv):
         mod = importlib.import_module("xv.checks.%s" % what.lower())
         if args.replay:
             return replay(what.upper(), mod, args.replay)
-        return mod.run(tier, workers=args.workers)
+        try:
+            return mod.run(tier, workers=args.workers)
+        except Exception as e:  # a crash of the machinery is a harness fault (exit 2), never a verdict
+            import traceback
+
+            traceback.print_exc()
+            print("HARNESS-ERROR: %s: the check itself failed: %s: %s" % (what.upper(), type(e).__name__, str(e)[:300]))
+            return 2
     mod = importlib.import_module("xv.cmds.%s" % what)
     return mod.main(args)
 
